@@ -10,6 +10,7 @@ import Gv.Model.Eval
 import Gv.Model.Gen
 import Gv.Proofs.EvalLemmas
 import Gv.Proofs.EnumLemmas
+import Gv.Proofs.EnumFail
 
 namespace Gv.Props.C08
 open Gv Gv.Str Gv.Eval Gv.Gen
@@ -283,4 +284,532 @@ theorem C08_transformer_pairs_complete (c : Converter) (pat repl : S) (tm : List
           · exact List.mem_cons_of_mem _ this
           · exact this
 
+/-! ### the failure direction (`Gv/Proofs/EnumFail.lean`) -/
+
+open Gv.EnumFail in
+/-- **C08_ok_iff**: a generated enum conversion exists exactly when both types are enums, the transformers are fine, the
+name chosen for every source member resolves (`enumResolves`: `@ignore`, `@panic`, `@error` in a method that can return an
+error, or a member of the target enum), source members with equal values agree (`enumMismatch`), `enum:unknown` is set and
+resolves, and (for the method's own target) every `enum:map` key is a source member -/
+theorem C08_ok_iff (c : Converter) (cx : Ctx) (s t : Ty) (path : List PathElem) (st : GState) :
+    (∃ r st', enumPlan c cx s t path st = .ok (r, st')) ↔
+    ∃ sm tm tmap, enumMembers c cx.cfg.common s = some sm ∧ enumMembers c cx.cfg.common t = some tm ∧
+      enumTransformers c sm tm cx.cfg.transformers [] = .ok tmap ∧
+      (∀ sd, sd ∈ sm → enumResolves cx st tm (chooseEnumTarget cx.cfg.enumMap tmap sd.name) = true) ∧
+      (∀ a b, a ∈ sm → b ∈ sm → a.val = b.val →
+        enumMismatch tm (chooseEnumTarget cx.cfg.enumMap tmap a.name) (chooseEnumTarget cx.cfg.enumMap tmap b.name) = false) ∧
+      cx.cfg.common.enumUnknown.isEmpty = false ∧
+      enumResolves cx st tm cx.cfg.common.enumUnknown = true ∧
+      ((cx.fieldsTarget == t) = true → ∀ k, k ∈ cx.cfg.enumMap.map (·.1) → ∃ sd, sd ∈ sm ∧ sd.name = k) := by
+  constructor
+  · rintro ⟨r, st', h⟩
+    obtain ⟨sm, tm, tmap, _, _, _, _, _, hsm, htm, htr, _, hu, _, _, _⟩ := enumPlan_inv c cx s t path st st' r h
+    -- enumPlan_inv does not say that the loop started in `st`: read it off the equation
+    rw [enumPlan_eq' c cx s t path st sm tm tmap hsm htm htr] at h
+    cases hc' : enumCases cx path tm tmap sm { remaining := if cx.fieldsTarget == t then cx.cfg.enumMap.map (·.1) else [] } st with
+    | error e => rw [hc'] at h; cases h
+    | ok v =>
+      obtain ⟨acc, s2⟩ := v
+      rw [hc'] at h
+      simp only [hu, Bool.false_eq_true, if_false] at h
+      cases hd' : enumAction cx path tm cx.cfg.common.enumUnknown s2 with
+      | error e => rw [hd'] at h; cases h
+      | ok v =>
+        obtain ⟨dflt, s3⟩ := v
+        rw [hd'] at h
+        simp only [] at h
+        split at h
+        · rename_i hrem
+          obtain ⟨hl1, hl2⟩ := enumCases_ok_LoopOK cx path tm tmap st sm _ acc s2 hc'
+          obtain ⟨hs2, _⟩ := enumCases_ok_resolves cx path tm tmap st sm _ acc st s2 hc' (StInv_refl cx st)
+          obtain ⟨_, hru⟩ := enumAction_ok_inv cx path tm _ st s2 s3 dflt hs2 hd'
+          obtain ⟨_, _, _, _, i5⟩ := enumCases_ok_vals cx path tm tmap sm _ acc st s2 hc' (AccInv_init _)
+          refine ⟨sm, tm, tmap, hsm, htm, htr, hl1, hl2, hu, hru, ?_⟩
+          intro hft
+          rw [i5] at hrem
+          simp only [hft, if_true] at hrem
+          exact (remaining_empty_iff _ _).1 hrem
+        · cases h
+  · rintro ⟨sm, tm, tmap, hsm, htm, htr, hl1, hl2, hu, hru, hkeys⟩
+    rw [enumPlan_eq' c cx s t path st sm tm tmap hsm htm htr]
+    obtain ⟨acc, s2, hc⟩ := (enumCases_ok_iff cx path tm tmap st sm
+      (if cx.fieldsTarget == t then cx.cfg.enumMap.map (·.1) else [])).2 ⟨hl1, hl2⟩
+    obtain ⟨hs2, _⟩ := enumCases_ok_resolves cx path tm tmap st sm _ acc st s2 hc (StInv_refl cx st)
+    obtain ⟨dflt, s3, hd⟩ := enumAction_ok_of cx path tm _ st s2 hs2 hru
+    obtain ⟨_, _, _, _, i5⟩ := enumCases_ok_vals cx path tm tmap sm _ acc st s2 hc (AccInv_init _)
+    have hrem : acc.remaining.isEmpty = true := by
+      rw [i5]
+      apply (remaining_empty_iff _ _).2
+      intro k hk
+      split at hk
+      · rename_i hft; exact hkeys hft k hk
+      · cases hk
+    rw [hc]
+    simp only [hu, Bool.false_eq_true, if_false, hd, hrem, if_true]
+    exact ⟨_, _, rfl⟩
+
+open Gv.EnumFail in
+/-- **C08_fail_iff**: for two enums with working transformers, generation fails with diagnostic `e` exactly in one of four
+ways, in this order: (1) after a prefix of the source members that went through, the next member's chosen name does not
+resolve (`enumActionDiag`: `enumTargetMissing` for a name that is no target member, `enumInvalidTarget` for an unknown
+`@…`, `enumErrorNotAllowed` for `@error` in a method that cannot return an error) or it disagrees with an earlier member of
+equal value (`enumMismatch`); (2) all members went through and `enum:unknown` is not set (`enumUnknownMissing`); (3) it is
+set but does not resolve; (4) it resolves but an `enum:map` key of the method's own target is no source member
+(`enumKeyMissing`) -/
+theorem C08_fail_iff (c : Converter) (cx : Ctx) (s t : Ty) (path : List PathElem) (st : GState)
+    (sm tm : List ConstDecl) (tmap : List (S × S))
+    (hsm : enumMembers c cx.cfg.common s = some sm) (htm : enumMembers c cx.cfg.common t = some tm)
+    (htr : enumTransformers c sm tm cx.cfg.transformers [] = .ok tmap) (e : Diag) :
+    enumPlan c cx s t path st = .error e ↔
+      (∃ pre sd post, sm = pre ++ sd :: post ∧ LoopOK cx st tm tmap pre ∧
+        (enumActionDiag cx st tm (chooseEnumTarget cx.cfg.enumMap tmap sd.name) = some e ∨
+         (enumResolves cx st tm (chooseEnumTarget cx.cfg.enumMap tmap sd.name) = true ∧ e = .enumMismatch ∧
+           ∃ sd0, sd0 ∈ pre ∧ sd0.val = sd.val ∧
+             enumMismatch tm (chooseEnumTarget cx.cfg.enumMap tmap sd.name) (chooseEnumTarget cx.cfg.enumMap tmap sd0.name) = true))) ∨
+      (LoopOK cx st tm tmap sm ∧ cx.cfg.common.enumUnknown.isEmpty = true ∧ e = .enumUnknownMissing) ∨
+      (LoopOK cx st tm tmap sm ∧ cx.cfg.common.enumUnknown.isEmpty = false ∧
+        enumActionDiag cx st tm cx.cfg.common.enumUnknown = some e) ∨
+      (LoopOK cx st tm tmap sm ∧ cx.cfg.common.enumUnknown.isEmpty = false ∧
+        enumResolves cx st tm cx.cfg.common.enumUnknown = true ∧ e = .enumKeyMissing ∧ (cx.fieldsTarget == t) = true ∧
+        ∃ k, k ∈ cx.cfg.enumMap.map (·.1) ∧ ∀ sd, sd ∈ sm → sd.name ≠ k) := by
+  rw [enumPlan_eq' c cx s t path st sm tm tmap hsm htm htr]
+  cases hc : enumCases cx path tm tmap sm { remaining := if cx.fieldsTarget == t then cx.cfg.enumMap.map (·.1) else [] } st with
+  | error e1 =>
+    simp only []
+    have hnot : ¬ LoopOK cx st tm tmap sm := by
+      intro hl
+      obtain ⟨_, _, hok⟩ := (enumCases_ok_iff cx path tm tmap st sm _).2 hl
+      rw [hc] at hok; cases hok
+    constructor
+    · intro h
+      have he : e1 = e := by injection h
+      subst he
+      exact .inl ((enumCases_error_iff' cx path tm tmap st _ sm e1).1 hc)
+    · rintro (h | ⟨h, _⟩ | ⟨h, _⟩ | ⟨h, _⟩)
+      · have := (enumCases_error_iff' cx path tm tmap st (if cx.fieldsTarget == t then cx.cfg.enumMap.map (·.1) else []) sm e).2 h
+        rw [hc] at this
+        have he : e1 = e := by injection this
+        rw [he]
+      · exact absurd h hnot
+      · exact absurd h hnot
+      · exact absurd h hnot
+  | ok v =>
+    obtain ⟨acc, s2⟩ := v
+    simp only []
+    have hl : LoopOK cx st tm tmap sm := enumCases_ok_LoopOK cx path tm tmap st sm _ acc s2 hc
+    have hno1 : ∀ e', ¬ (∃ pre sd post, sm = pre ++ sd :: post ∧ LoopOK cx st tm tmap pre ∧
+        (enumActionDiag cx st tm (chooseEnumTarget cx.cfg.enumMap tmap sd.name) = some e' ∨
+         (enumResolves cx st tm (chooseEnumTarget cx.cfg.enumMap tmap sd.name) = true ∧ e' = .enumMismatch ∧
+           ∃ sd0, sd0 ∈ pre ∧ sd0.val = sd.val ∧
+             enumMismatch tm (chooseEnumTarget cx.cfg.enumMap tmap sd.name) (chooseEnumTarget cx.cfg.enumMap tmap sd0.name) = true))) := by
+      intro e' h
+      have := (enumCases_error_iff' cx path tm tmap st (if cx.fieldsTarget == t then cx.cfg.enumMap.map (·.1) else []) sm e').2 h
+      rw [hc] at this; cases this
+    obtain ⟨hs2, _⟩ := enumCases_ok_resolves cx path tm tmap st sm _ acc st s2 hc (StInv_refl cx st)
+    obtain ⟨_, _, _, _, i5⟩ := enumCases_ok_vals cx path tm tmap sm _ acc st s2 hc (AccInv_init _)
+    cases hu : cx.cfg.common.enumUnknown.isEmpty with
+    | true =>
+      simp only [if_true]
+      constructor
+      · intro h; cases h; exact .inr (.inl ⟨hl, by simp, rfl⟩)
+      · rintro (h | ⟨_, _, rfl⟩ | ⟨_, h, _⟩ | ⟨_, h, _⟩)
+        · exact absurd h (hno1 e)
+        · rfl
+        · cases h
+        · cases h
+    | false =>
+      simp only [Bool.false_eq_true, if_false]
+      cases hd : enumAction cx path tm cx.cfg.common.enumUnknown s2 with
+      | error e1 =>
+        simp only []
+        have hdiag := (enumAction_error_iff cx path tm _ st s2 e1 hs2).1 hd
+        constructor
+        · intro h; cases h; exact .inr (.inr (.inl ⟨hl, by simp, hdiag⟩))
+        · rintro (h | ⟨_, h, _⟩ | ⟨_, _, h⟩ | ⟨_, _, h, _⟩)
+          · exact absurd h (hno1 e)
+          · cases h
+          · rw [hdiag] at h; cases h; rfl
+          · rw [← enumActionDiag_none_iff, hdiag] at h; cases h
+      | ok v =>
+        obtain ⟨dflt, s3⟩ := v
+        simp only []
+        obtain ⟨_, hru⟩ := enumAction_ok_inv cx path tm _ st s2 s3 dflt hs2 hd
+        have hnone := (enumActionDiag_none_iff cx st tm _).2 hru
+        cases hrem : acc.remaining.isEmpty with
+        | true =>
+          simp only [if_true]
+          constructor
+          · intro h; cases h
+          · rintro (h | ⟨_, h, _⟩ | ⟨_, _, h⟩ | ⟨_, _, _, _, hft, k, hk, hne⟩)
+            · exact absurd h (hno1 e)
+            · cases h
+            · rw [hnone] at h; cases h
+            · rw [i5] at hrem
+              simp only [hft, if_true] at hrem
+              obtain ⟨sd, hsd, he⟩ := (remaining_empty_iff _ _).1 hrem k hk
+              exact absurd he (hne sd hsd)
+        | false =>
+          simp only [Bool.false_eq_true, if_false]
+          constructor
+          · intro h; cases h
+            refine .inr (.inr (.inr ⟨hl, by simp, hru, rfl, ?_⟩))
+            rw [i5] at hrem
+            cases hft : (cx.fieldsTarget == t) with
+            | false => simp [hft] at hrem
+            | true =>
+              refine ⟨rfl, ?_⟩
+              simp only [hft, if_true] at hrem
+              apply Classical.byContradiction
+              intro hcon
+              have : ∀ k, k ∈ cx.cfg.enumMap.map (·.1) → ∃ sd, sd ∈ sm ∧ sd.name = k := by
+                intro k hk
+                apply Classical.byContradiction
+                intro hn
+                exact hcon ⟨k, hk, fun sd hsd he => hn ⟨sd, hsd, he⟩⟩
+              rw [(remaining_empty_iff _ _).2 this] at hrem
+              cases hrem
+          · rintro (h | ⟨_, h, _⟩ | ⟨_, _, h⟩ | ⟨_, _, _, rfl, _⟩)
+            · exact absurd h (hno1 e)
+            · cases h
+            · rw [hnone] at h; cases h
+            · rfl
+
+/-- before the members are looked at: a type that is no enum, or a failing transformer, is the diagnostic -/
+theorem C08_setup_fails (c : Converter) (cx : Ctx) (s t : Ty) (path : List PathElem) (st : GState) :
+    (enumMembers c cx.cfg.common s = none → enumPlan c cx s t path st = .error (.unsupported "enum source")) ∧
+    (∀ sm, enumMembers c cx.cfg.common s = some sm → enumMembers c cx.cfg.common t = none →
+      enumPlan c cx s t path st = .error (.unsupported "enum target")) ∧
+    (∀ sm tm e, enumMembers c cx.cfg.common s = some sm → enumMembers c cx.cfg.common t = some tm →
+      enumTransformers c sm tm cx.cfg.transformers [] = .error e → enumPlan c cx s t path st = .error e ∧
+        (e = .unsupported "custom transformer" ∨ e = .enumTransformerError ∨ e = .enumTransformerEmpty)) := by
+  refine ⟨?_, ?_, ?_⟩
+  · intro h; rw [EnumFail.enumPlan_eq, h]
+  · intro sm h1 h2; rw [EnumFail.enumPlan_eq, h1, h2]
+  · intro sm tm e h1 h2 h3
+    refine ⟨?_, EnumFail.enumTransformers_error c sm tm _ _ e h3⟩
+    rw [EnumFail.enumPlan_eq, h1, h2]; simp only []; rw [h3]
+
+/-- a transformer that maps no source member onto a target member fails the generation -/
+theorem C08_empty_transformer_fails (c : Converter) (sm tm : List ConstDecl) (pat repl cfgS : S) (rest tmap : List (S × S))
+    (h : transformerPairs c pat repl tm sm = .ok [])
+    (hcfg : splitOn ' ' cfgS = [pat, repl]) :
+    enumTransformers c sm tm (("regex".toList, cfgS) :: rest) tmap = .error .enumTransformerEmpty := by
+  unfold enumTransformers
+  simp [hcfg, h]
+
+open Gv.EnumFail in
+/-- the diagnostic of a name is `enumTargetMissing` exactly for a name that is neither `@…` nor a target member -/
+theorem enumActionDiag_targetMissing_iff (cx : Ctx) (st : GState) (tm : List ConstDecl) (n : S) :
+    enumActionDiag cx st tm n = some .enumTargetMissing ↔ Settings.isEnumAction n = false ∧ tm.any (·.name == n) = false := by
+  unfold enumActionDiag
+  split
+  · rename_i ha
+    simp only [ha, Bool.true_eq_false, false_and, iff_false]
+    split
+    · simp
+    · split
+      · simp
+      · split
+        · split
+          · simp
+          · simp
+          · rename_i e hr
+            have := returnError_error cx st e hr
+            subst this; simp
+        · simp
+  · rename_i ha
+    simp only [ha, true_and]
+    split <;> simp_all
+
+open Gv.EnumFail in
+/-- **C08_missing_target_fails** (a): a source member whose chosen name (enum:map, else transformers, else its own name) is
+neither a member of the target enum nor an `@` action fails the generation, in every state -/
+theorem C08_missing_target_fails (c : Converter) (cx : Ctx) (s t : Ty) (path : List PathElem) (st : GState)
+    (sm tm : List ConstDecl) (tmap : List (S × S))
+    (hsm : enumMembers c cx.cfg.common s = some sm) (htm : enumMembers c cx.cfg.common t = some tm)
+    (htr : enumTransformers c sm tm cx.cfg.transformers [] = .ok tmap)
+    (sd : ConstDecl) (hsd : sd ∈ sm)
+    (hna : Settings.isEnumAction (chooseEnumTarget cx.cfg.enumMap tmap sd.name) = false)
+    (hmiss : tm.any (·.name == chooseEnumTarget cx.cfg.enumMap tmap sd.name) = false) :
+    ∃ e, enumPlan c cx s t path st = .error e := by
+  cases h : enumPlan c cx s t path st with
+  | error e => exact ⟨e, rfl⟩
+  | ok v =>
+    obtain ⟨r, st'⟩ := v
+    obtain ⟨sm', tm', tmap', hsm', htm', htr', hres, _⟩ := (C08_ok_iff c cx s t path st).1 ⟨r, st', h⟩
+    rw [hsm] at hsm'; cases hsm'
+    rw [htm] at htm'; cases htm'
+    rw [htr] at htr'; cases htr'
+    have := hres sd hsd
+    unfold enumResolves at this
+    simp [hna, hmiss] at this
+
+open Gv.EnumFail in
+/-- … and the diagnostic is `enumTargetMissing` exactly when such a member comes after a prefix of members that went
+through, or all members went through and `enum:unknown` is such a name -/
+theorem C08_missing_target_diag_iff (c : Converter) (cx : Ctx) (s t : Ty) (path : List PathElem) (st : GState)
+    (sm tm : List ConstDecl) (tmap : List (S × S))
+    (hsm : enumMembers c cx.cfg.common s = some sm) (htm : enumMembers c cx.cfg.common t = some tm)
+    (htr : enumTransformers c sm tm cx.cfg.transformers [] = .ok tmap) :
+    enumPlan c cx s t path st = .error .enumTargetMissing ↔
+      (∃ pre sd post, sm = pre ++ sd :: post ∧ LoopOK cx st tm tmap pre ∧
+        Settings.isEnumAction (chooseEnumTarget cx.cfg.enumMap tmap sd.name) = false ∧
+        tm.any (·.name == chooseEnumTarget cx.cfg.enumMap tmap sd.name) = false) ∨
+      (LoopOK cx st tm tmap sm ∧ cx.cfg.common.enumUnknown.isEmpty = false ∧
+        Settings.isEnumAction cx.cfg.common.enumUnknown = false ∧ tm.any (·.name == cx.cfg.common.enumUnknown) = false) := by
+  rw [C08_fail_iff c cx s t path st sm tm tmap hsm htm htr]
+  constructor
+  · rintro (⟨pre, sd, post, hl, hpre, h | ⟨_, h, _⟩⟩ | ⟨_, _, h⟩ | ⟨hl, hu, h⟩ | ⟨_, _, _, h, _⟩)
+    · exact .inl ⟨pre, sd, post, hl, hpre, (enumActionDiag_targetMissing_iff cx st tm _).1 h⟩
+    · cases h
+    · cases h
+    · exact .inr ⟨hl, hu, (enumActionDiag_targetMissing_iff cx st tm _).1 h⟩
+    · cases h
+  · rintro (⟨pre, sd, post, hl, hpre, h⟩ | ⟨hl, hu, h⟩)
+    · exact .inl ⟨pre, sd, post, hl, hpre, .inl ((enumActionDiag_targetMissing_iff cx st tm _).2 h)⟩
+    · exact .inr (.inr (.inl ⟨hl, hu, (enumActionDiag_targetMissing_iff cx st tm _).2 h⟩))
+
+open Gv.EnumFail in
+/-- **C08_unknown_missing_fails** (b): without `enum:unknown` the generation fails, in every state; the diagnostic is
+`enumUnknownMissing` exactly when moreover all source members went through -/
+theorem C08_unknown_missing_fails (c : Converter) (cx : Ctx) (s t : Ty) (path : List PathElem) (st : GState)
+    (hu : cx.cfg.common.enumUnknown.isEmpty = true) :
+    (∃ e, enumPlan c cx s t path st = .error e) ∧
+    ∀ sm tm tmap, enumMembers c cx.cfg.common s = some sm → enumMembers c cx.cfg.common t = some tm →
+      enumTransformers c sm tm cx.cfg.transformers [] = .ok tmap →
+      (enumPlan c cx s t path st = .error .enumUnknownMissing ↔ LoopOK cx st tm tmap sm) := by
+  constructor
+  · cases h : enumPlan c cx s t path st with
+    | error e => exact ⟨e, rfl⟩
+    | ok v =>
+      obtain ⟨r, st'⟩ := v
+      obtain ⟨_, _, _, _, _, _, _, _, hu', _⟩ := (C08_ok_iff c cx s t path st).1 ⟨r, st', h⟩
+      rw [hu] at hu'; cases hu'
+  · intro sm tm tmap hsm htm htr
+    rw [C08_fail_iff c cx s t path st sm tm tmap hsm htm htr]
+    constructor
+    · rintro (⟨pre, sd, post, hl, hpre, h | ⟨_, h, _⟩⟩ | ⟨hl, _, _⟩ | ⟨_, h, _⟩ | ⟨_, h, _⟩)
+      · rcases enumActionDiag_kinds cx st tm _ _ h with h | h | h | h <;> cases h
+      · cases h
+      · exact hl
+      · rw [hu] at h; cases h
+      · rw [hu] at h; cases h
+    · intro hl; exact .inr (.inl ⟨hl, hu, rfl⟩)
+
+/-- what `enumMismatch` compares for two names that are members of the target enum: their VALUES -/
+theorem enumMismatch_members (tm : List ConstDecl) (a b : S) (ta tb : ConstDecl)
+    (ha : Settings.isEnumAction a = false) (hb : Settings.isEnumAction b = false)
+    (hta : tm.find? (·.name == a) = some ta) (htb : tm.find? (·.name == b) = some tb) :
+    enumMismatch tm a b = true ↔ ta.val ≠ tb.val := by
+  unfold enumMismatch
+  simp only [ha, hb, hta, htb, Bool.not_false, Bool.and_self, if_true, Option.map_some]
+  constructor
+  · intro h heq; rw [heq] at h; simp at h
+  · intro h; simp only [bne_iff_ne, ne_eq, Option.some.injEq]; exact fun h' => h h'.symm
+
+open Gv.EnumFail in
+/-- **C08_equal_values_must_agree** (c): two source members with the same value whose chosen names disagree (`enumMismatch`:
+different target VALUES for two target members, different names otherwise) fail the generation, in every state and in
+whichever order they are declared -/
+theorem C08_equal_values_must_agree (c : Converter) (cx : Ctx) (s t : Ty) (path : List PathElem) (st : GState)
+    (sm tm : List ConstDecl) (tmap : List (S × S))
+    (hsm : enumMembers c cx.cfg.common s = some sm) (htm : enumMembers c cx.cfg.common t = some tm)
+    (htr : enumTransformers c sm tm cx.cfg.transformers [] = .ok tmap)
+    (a b : ConstDecl) (ha : a ∈ sm) (hb : b ∈ sm) (hv : a.val = b.val)
+    (hmm : enumMismatch tm (chooseEnumTarget cx.cfg.enumMap tmap a.name) (chooseEnumTarget cx.cfg.enumMap tmap b.name) = true) :
+    ∃ e, enumPlan c cx s t path st = .error e := by
+  cases h : enumPlan c cx s t path st with
+  | error e => exact ⟨e, rfl⟩
+  | ok v =>
+    obtain ⟨r, st'⟩ := v
+    obtain ⟨sm', tm', tmap', hsm', htm', htr', _, hag, _⟩ := (C08_ok_iff c cx s t path st).1 ⟨r, st', h⟩
+    rw [hsm] at hsm'; cases hsm'
+    rw [htm] at htm'; cases htm'
+    rw [htr] at htr'; cases htr'
+    rw [hag a b ha hb hv] at hmm; cases hmm
+
+open Gv.EnumFail in
+/-- … with diagnostic `enumMismatch` exactly when the first failing member resolves but disagrees with an earlier one -/
+theorem C08_mismatch_diag_iff (c : Converter) (cx : Ctx) (s t : Ty) (path : List PathElem) (st : GState)
+    (sm tm : List ConstDecl) (tmap : List (S × S))
+    (hsm : enumMembers c cx.cfg.common s = some sm) (htm : enumMembers c cx.cfg.common t = some tm)
+    (htr : enumTransformers c sm tm cx.cfg.transformers [] = .ok tmap) :
+    enumPlan c cx s t path st = .error .enumMismatch ↔
+      ∃ pre sd post, sm = pre ++ sd :: post ∧ LoopOK cx st tm tmap pre ∧
+        enumResolves cx st tm (chooseEnumTarget cx.cfg.enumMap tmap sd.name) = true ∧
+        ∃ sd0, sd0 ∈ pre ∧ sd0.val = sd.val ∧
+          enumMismatch tm (chooseEnumTarget cx.cfg.enumMap tmap sd.name) (chooseEnumTarget cx.cfg.enumMap tmap sd0.name) = true := by
+  rw [C08_fail_iff c cx s t path st sm tm tmap hsm htm htr]
+  constructor
+  · rintro (⟨pre, sd, post, hl, hpre, h | ⟨h1, _, h2⟩⟩ | ⟨_, _, h⟩ | ⟨hl, hu, h⟩ | ⟨_, _, _, h, _⟩)
+    · rcases enumActionDiag_kinds cx st tm _ _ h with h | h | h | h <;> cases h
+    · exact ⟨pre, sd, post, hl, hpre, h1, h2⟩
+    · cases h
+    · rcases enumActionDiag_kinds cx st tm _ _ h with h | h | h | h <;> cases h
+    · cases h
+  · rintro ⟨pre, sd, post, hl, hpre, h1, h2⟩
+    exact .inl ⟨pre, sd, post, hl, hpre, .inr ⟨h1, rfl, h2⟩⟩
+
+open Gv.EnumFail Gv.EnumLemmas in
+/-- **C08_cases_nodup** (c, compile safety): the emitted cases have pairwise distinct values – always, whatever the members
+are – and their values are exactly the values of the source members: equal-valued members share ONE case -/
+theorem C08_cases_nodup (c : Converter) (cx : Ctx) (s t : Ty) (path : List PathElem) (st st' : GState)
+    (cases : List (S × ConstVal × EnumAction)) (dflt : EnumAction)
+    (h : enumPlan c cx s t path st = .ok (.enumc cases dflt, st')) :
+    (cases.map (·.2.1)).Nodup ∧
+    ∃ sm, enumMembers c cx.cfg.common s = some sm ∧ ∀ v, v ∈ cases.map (·.2.1) ↔ ∃ sd, sd ∈ sm ∧ sd.val = v := by
+  obtain ⟨sm, tm, tmap, acc, dflt', s1, s2, s3, hsm, htm, htr, hc, _, _, _, hr⟩ := enumPlan_inv c cx s t path st st' _ h
+  cases hr
+  obtain ⟨i1, _⟩ := enumCases_ok_vals cx path tm tmap sm _ acc s1 s2 hc (AccInv_init _)
+  refine ⟨i1.nodup, sm, hsm, ?_⟩
+  intro v
+  constructor
+  · intro hv
+    obtain ⟨x, hx, hxv⟩ := List.mem_map.1 hv
+    rcases enumCases_name_driven cx path tm tmap sm _ acc s1 s2 hc x hx with h0 | ⟨sd, hm, _, h3, _⟩
+    · cases h0
+    · exact ⟨sd, hm, by rw [← h3, hxv]⟩
+  · rintro ⟨sd, hm, rfl⟩
+    obtain ⟨_, _, hcov⟩ := enumCases_cover cx path tm tmap sm _ acc s1 s2 hc (by simp [Sync])
+    obtain ⟨x, hx, hxv⟩ := hcov sd hm
+    exact List.mem_map.2 ⟨x, hx, hxv⟩
+
+open Gv.EnumFail in
+/-- **C08_error_action_needs_error_result** (d): what `@error` means for the method being built.  In an explicit method
+without an error result it is the diagnostic `enumErrorNotAllowed` (the state is not touched); in a generated top-level
+method without one it succeeds and the method is flagged to return an error (`flagRet`: `returnError`, `dirty`, and its
+recorded callers `dirty`); whenever it succeeds, the action wraps as configured and the method returns an error afterwards -/
+theorem C08_error_action_needs_error_result (cx : Ctx) (path : List PathElem) (tm : List ConstDecl) (st : GState) :
+    (∀ m, st.methods[cx.self]? = some m → m.explicit = true → m.returnError = false →
+      enumAction cx path tm "@error".toList st = .error .enumErrorNotAllowed) ∧
+    (∀ m, st.methods[cx.self]? = some m → m.explicit = false → m.returnError = false → m.originPath = [] →
+      enumAction cx path tm "@error".toList st = .ok (.error (wrapOf cx path), flagRet cx.self st)) ∧
+    (∀ m, st.methods[cx.self]? = some m → m.returnError = true →
+      enumAction cx path tm "@error".toList st = .ok (.error (wrapOf cx path), st)) ∧
+    (∀ a st', enumAction cx path tm "@error".toList st = .ok (a, st') → a = .error (wrapOf cx path) ∧ RetErr cx.self st') := by
+  have hact : Settings.isEnumAction "@error".toList = true := by decide
+  have h1 : ("@error".toList == "@ignore".toList) = false := by decide
+  have h2 : ("@error".toList == "@panic".toList) = false := by decide
+  have heq : enumAction cx path tm "@error".toList st =
+      match returnError cx st with
+      | .error e => .error e
+      | .ok (true, s1) => .ok (.error (wrapOf cx path), s1)
+      | .ok (false, _) => .error .enumErrorNotAllowed := by
+    rw [enumAction_eq]
+    simp only [hact, h1, h2, if_true, Bool.false_eq_true, if_false, beq_self_eq_true]
+    rfl
+  refine ⟨?_, ?_, ?_, ?_⟩
+  · intro m hm he hr
+    rw [heq, returnError_explicit cx st m hm he hr]
+  · intro m hm he hr ho
+    rw [heq, returnError_generated cx st m hm he hr ho]
+  · intro m hm hr
+    rw [heq, returnError_of_RetErr cx st ⟨m, hm, hr⟩]
+  · intro a st' h
+    rw [heq] at h
+    cases hr : returnError cx st with
+    | error e => rw [hr] at h; cases h
+    | ok v =>
+      obtain ⟨b, s1⟩ := v
+      cases b with
+      | false => rw [hr] at h; cases h
+      | true =>
+        rw [hr] at h; cases h
+        exact ⟨rfl, returnError_true cx st st' hr⟩
+
+open Gv.EnumFail in
+/-- at the level of the whole mapping: in an explicit method without an error result, `@error` as the chosen name of a
+source member or as `enum:unknown` fails the generation -/
+theorem C08_error_action_fails_without_error_result (c : Converter) (cx : Ctx) (s t : Ty) (path : List PathElem) (st : GState)
+    (m : GenMethod) (hm : st.methods[cx.self]? = some m) (he : m.explicit = true) (hr : m.returnError = false)
+    (sm tm : List ConstDecl) (tmap : List (S × S))
+    (hsm : enumMembers c cx.cfg.common s = some sm) (htm : enumMembers c cx.cfg.common t = some tm)
+    (htr : enumTransformers c sm tm cx.cfg.transformers [] = .ok tmap)
+    (huse : (∃ sd, sd ∈ sm ∧ chooseEnumTarget cx.cfg.enumMap tmap sd.name = "@error".toList) ∨
+            cx.cfg.common.enumUnknown = "@error".toList) :
+    ∃ e, enumPlan c cx s t path st = .error e := by
+  have hno : enumResolves cx st tm "@error".toList = false := by
+    unfold enumResolves canReturnError
+    rw [returnError_explicit cx st m hm he hr]
+    have hact : Settings.isEnumAction "@error".toList = true := by decide
+    have h1 : ("@error".toList == "@ignore".toList) = false := by decide
+    have h2 : ("@error".toList == "@panic".toList) = false := by decide
+    simp only [hact, h1, h2, if_true, Bool.or_self, Bool.false_or, Bool.and_false]
+  cases h : enumPlan c cx s t path st with
+  | error e => exact ⟨e, rfl⟩
+  | ok v =>
+    obtain ⟨r, st'⟩ := v
+    obtain ⟨sm', tm', tmap', hsm', htm', htr', hres, _, _, hru, _⟩ := (C08_ok_iff c cx s t path st).1 ⟨r, st', h⟩
+    rw [hsm] at hsm'; cases hsm'
+    rw [htm] at htm'; cases htm'
+    rw [htr] at htr'; cases htr'
+    rcases huse with ⟨sd, hsd, hch⟩ | hu
+    · have := hres sd hsd
+      rw [hch, hno] at this; cases this
+    · rw [hu, hno] at hru; cases hru
+
+/-! ### non-vacuity: a small converter (Color {Crimson = 0, Red = 0, Teal = 1} → Shade {Blue = 5, Navy = 5, Red = 7}) -/
+namespace Ex
+open Gv.EnumFail
+
+def color : NamedDecl :=
+  { id := "p.Color".toList, pkgPath := "p".toList, pkgName := "p".toList, name := "Color".toList, exported := true,
+    underlying := .basic .int, methods := [],
+    consts := [⟨"Crimson".toList, true, .int 0⟩, ⟨"Red".toList, true, .int 0⟩, ⟨"Teal".toList, true, .int 1⟩] }
+def shade : NamedDecl :=
+  { id := "p.Shade".toList, pkgPath := "p".toList, pkgName := "p".toList, name := "Shade".toList, exported := true,
+    underlying := .basic .int, methods := [],
+    consts := [⟨"Blue".toList, true, .int 5⟩, ⟨"Navy".toList, true, .int 5⟩, ⟨"Red".toList, true, .int 7⟩] }
+def tyC : Ty := .named "p.Color".toList
+def tyS : Ty := .named "p.Shade".toList
+def conv : Converter := { env := [color, shade], common := {}, outputPkg := "out".toList, customs := [], extend := [], orc := {} }
+def meth (explicit : Bool) : GenMethod :=
+  { name := "Conv".toList, source := tyC, target := tyS, args := [], contexts := [], returnError := false, updateTarget := false,
+    explicit := explicit, dirty := false, originPath := [], originName := [], cfg := { common := {} } }
+def st0 (explicit : Bool) : GState := { methods := [meth explicit], fileNames := [], seen := [], useCtor := false }
+def cx0 (enumMap : List (S × S)) (unknown : S) : Ctx :=
+  { self := 0, cfg := { common := { enumUnknown := unknown }, enumMap := enumMap }, confSource := none, confTarget := tyS,
+    updateTarget := false, fieldsTarget := tyS, available := [], ctxArgs := [], sigSource := tyC, sigTarget := tyS }
+
+/-- Crimson→Blue, Red→Navy (equal values 5 = 5 agree), Teal→Red -/
+def goodMap : List (S × S) :=
+  [("Crimson".toList, "Blue".toList), ("Red".toList, "Navy".toList), ("Teal".toList, "Red".toList)]
+/-- Crimson→Blue (5) but Red→Red (7): members with value 0 disagree -/
+def badMap : List (S × S) := [("Crimson".toList, "Blue".toList), ("Teal".toList, "Red".toList)]
+
+example : enumMembers conv (cx0 [] []).cfg.common tyC = some color.consts := rfl
+example : enumMembers conv (cx0 [] []).cfg.common tyS = some shade.consts := rfl
+
+-- (a) without enum:map, `Crimson` has no target: the hypotheses of C08_missing_target_fails hold, and the diagnostic is the stated one
+example : ∃ e, enumPlan conv (cx0 [] "@panic".toList) tyC tyS [] (st0 true) = .error e :=
+  C08_missing_target_fails conv (cx0 [] "@panic".toList) tyC tyS [] (st0 true) color.consts shade.consts [] rfl rfl rfl
+    ⟨"Crimson".toList, true, .int 0⟩ (by simp [color]) (by decide) (by decide)
+example : enumPlan conv (cx0 [] "@panic".toList) tyC tyS [] (st0 true) = .error .enumTargetMissing := by rfl
+
+-- (b) enum:unknown missing, all members fine
+example : enumPlan conv (cx0 goodMap []) tyC tyS [] (st0 true) = .error .enumUnknownMissing := by rfl
+
+-- (c) equal values must agree; when they do, ONE case is emitted for Crimson and Red
+example : enumMismatch shade.consts "Blue".toList "Red".toList = true := by decide
+example : enumPlan conv (cx0 badMap "@panic".toList) tyC tyS [] (st0 true) = .error .enumMismatch := by rfl
+example : enumPlan conv (cx0 goodMap "@panic".toList) tyC tyS [] (st0 true) =
+    .ok (.enumc [("Crimson".toList, .int 0, .member "Blue".toList (.int 5)), ("Teal".toList, .int 1, .member "Red".toList (.int 7))] .panic,
+         st0 true) := by rfl
+
+-- (d) `@error` as unknown policy: explicit method without error result fails, generated method is flagged
+example : enumPlan conv (cx0 goodMap "@error".toList) tyC tyS [] (st0 true) = .error .enumErrorNotAllowed := by rfl
+example : ∃ r, enumPlan conv (cx0 goodMap "@error".toList) tyC tyS [] (st0 false) = .ok (r, flagRet 0 (st0 false)) ∧
+    RetErr 0 (flagRet 0 (st0 false)) := ⟨.enumc [("Crimson".toList, .int 0, .member "Blue".toList (.int 5)), ("Teal".toList, .int 1, .member "Red".toList (.int 7))]
+      (.error { mode := .none, path := [] }), by rfl, _, rfl, rfl⟩
+
+-- enum:map key that is no member
+example : enumPlan conv (cx0 (goodMap ++ [("Pink".toList, "Red".toList)]) "@panic".toList) tyC tyS [] (st0 true) = .error .enumKeyMissing := by
+  rfl
+example : ∃ e, enumPlan conv (cx0 badMap "@panic".toList) tyC tyS [] (st0 true) = .error e :=
+  C08_equal_values_must_agree conv _ tyC tyS [] (st0 true) color.consts shade.consts [] rfl rfl rfl
+    ⟨"Crimson".toList, true, .int 0⟩ ⟨"Red".toList, true, .int 0⟩ (by simp [color]) (by simp [color]) rfl (by decide)
+example : ∃ e, enumPlan conv (cx0 goodMap "@error".toList) tyC tyS [] (st0 true) = .error e :=
+  C08_error_action_fails_without_error_result conv _ tyC tyS [] (st0 true) (meth true) rfl rfl rfl
+    color.consts shade.consts [] rfl rfl rfl (.inr rfl)
+end Ex
 end Gv.Props.C08
